@@ -16,7 +16,7 @@ tvars == <<l, ps>>
 Empty == [x \in {} |-> 0]
 Proj(lst) == [i \in 1..Len(lst) |-> <<lst[i].s, lst[i].e, lst[i].b, lst[i].a>>]
 Entry(s, e, b, a, str) == [s |-> s, e |-> e, b |-> b, a |-> a,
-                           x |-> [k |-> IF str = 1 THEN "str" ELSE "int", v |-> 0, ty |-> "char", d |-> <<>>, w |-> 1]]
+                           x |-> [k |-> IF str > 0 THEN "str" ELSE "int", v |-> 0, ty |-> "char", d |-> <<>>, w |-> str]]
 
 TInit == /\ l = 1 /\ ps = Empty
          /\ top = "int" /\ toks = <<>> /\ p = P0("int") /\ pc = "head"
